@@ -54,13 +54,16 @@ int main(void)
     uint16_t suite;
     psHmac_t hctx;
     const char *evil = "INJECTED-BY-ATTACKER-WITHOUT-PSK";
-    int i, binderLen;
+    int i, binderLen, lastAlertSent = -1;
 
     CHECK(matrixSslOpen() >= 0, "open");
     CHECK(matrixSslNewKeys(&cliKeys, NULL) >= 0, "cli keys");
     CHECK(matrixSslLoadRsaKeysMem(cliKeys, NULL, 0, NULL, 0,
             RSA2048CA, RSA2048CA_SIZE) >= 0, "cli CA");
     CHECK(matrixSslNewSessionId(&sid, NULL) >= 0, "sid");
+
+    /* control case: the honest version of what the attacker imitates */
+    controlResumption(cliKeys, SSL_FLAGS_TLS_1_3, "TLS 1.3 PSK (ticket) resumption");
 
     /* ---- step 1: genuine TLS 1.3 session, certificate authenticated,
             the server issues a NewSessionTicket ---------------------------- */
@@ -192,6 +195,7 @@ int main(void)
         (int) cli->sec.tls13UsingPsk);
     memset(&cap, 0, sizeof(cap));
     pump(cli, NULL, NULL, &cap);
+    if (cap.len >= 7 && cap.b[0] == 21) lastAlertSent = cap.b[6];
     hexdump("        client output", cap.b, cap.len);
     printf("        matrixSslHandshakeIsComplete(client)=%d\n",
         (int) matrixSslHandshakeIsComplete(cli));
@@ -212,6 +216,7 @@ int main(void)
             (int) matrixSslHandshakeIsComplete(cli));
         return 1;
     }
-    printf("no violation observed\n");
+    printf("OK: the client refused the attacker's handshake (alert %d sent),"
+        " nothing was reported as application data\n", lastAlertSent);
     return 0;
 }
